@@ -48,6 +48,22 @@ CLAIMED = {
    note=COMMON_NOTE + "FitnessPredictorIsland clause is oracle-validated (no separate theorem beyond the scan). ParallelArchipelago's copy of the scan is exercised under C12.",
    technique="Lean 4 proof (fold invariant, permutation invariance) + correspondence on scripted populations",
    design="5/C15"),
+ "C13": dict(
+   text="Lean theorems over a file-system step model whose step order / file opened / rename are REGENERATED from evolutionary_optimizer.py: at every crash point (every prefix of the call's "
+        "steps, fresh or resumed disk) once a complete checkpoint exists one always exists, of a generation <= the one being written (one_complete, complete_persists), at most num+1 files of "
+        "the call exist (bounded), only files the call completed earlier are removed (own_files_only), no step fails (never_raises); the pre-fix in-place write is shown unsafe. "
+        "Tie: translator + crash injection before EVERY file operation of the real code compared with the model's prefix states. Lossless/transparent clauses are validated only.",
+   note=COMMON_NOTE + "Assumed: open('wb') truncates, os.replace/os.remove atomic; dill round trip and RNG transparency validated on samples (islands, AGraph islands, serial archipelagos), not proved.",
+   technique="Lean 4 proof (invariant over all prefixes of the generated step sequence) + exhaustive crash-point correspondence",
+   design="5/C13"),
+ "C14": dict(
+   text="Lean theorems over a total model of evolve_until_convergence whose exit chain, comparison operators, success statuses and loop order are REGENERATED from the source: always returns "
+        "(terminates), >= min generations, status names a criterion that holds at return (status_truthful), success <=> best <= threshold incl. NaN (success_iff), reported fitness/ngen "
+        "(reported), no round after a check at which a criterion held (no_round_after_hit, stops_at_hit), for any carried state (repeated calls). "
+        "Tie: translator + exact correspondence with the real method (real CheckpointController) under a scripted optimizer and fake clock.",
+   note=COMMON_NOTE + "The world (best fitness, evaluation count, clock, controller estimate) is an arbitrary oracle; gens>=1 is justified by the generated return shapes of get_gens_to_evolve.",
+   technique="Lean 4 proof (fuel-bounded loops, trace predicate) over tables regenerated from source + exact correspondence",
+   design="5/C14"),
 }
 
 REASONS = {p: "check not built yet in this round (planned, see DESIGN.md section 11)" for p in PROPS}
